@@ -142,7 +142,7 @@ Proof.
       destruct (q_top q); [rewrite Nat.sub_0_r|]; reflexivity. }
   destruct (q_join q) as [js|] eqn:Ej.
   - destruct (build (j_rhs js) B) as [m|bnr] eqn:Eb; [|discriminate]. injection Hjm as <-.
-    specialize (Hmain (Some m) Hin). destruct (main_loop eval yes q (Some m) ls0 0 A) as [[ls pulls] [e|]]; [contradiction|].
+    specialize (Hmain (Some (widen (j_bhdr js) m)) Hin). destruct (main_loop eval yes q (Some (widen (j_bhdr js) m)) ls0 0 A) as [[ls pulls] [e|]]; [contradiction|].
     destruct (finish yes q ls) as [st ferr]. destruct Hmain as [-> [H2 ->]]. cbn. repeat split. assumption.
   - injection Hjm as <-.
     specialize (Hmain None Hin). destruct (main_loop eval yes q None ls0 0 A) as [[ls pulls] [e|]]; [contradiction|].
